@@ -189,6 +189,123 @@ def scenarios(draw, tier="quick"):
     return {"cfg": cfg, "platform": plat, "objects": {"mailbox": 1}, "actors": actors, "sample": sample, "dyadic": dy}
 
 
+def _other(draw, values, prev, up):
+    """a value of `values` different from prev, larger when `up` (if there is one), smaller otherwise (if there is one)"""
+    cands = [v for v in values if (v > prev if up else v < prev)] or [v for v in values if v != prev]
+    return draw(st.sampled_from(cands))
+
+
+@st.composite
+def restart_scenarios(draw):
+    """A resource that carries a value profile (speed; bandwidth and/or latency) AND goes off and on again (state profile, or turn_off / turn_on
+    called by an actor of another host), with value events (increases and decreases) INSIDE the off intervals, and probes (isolated executions /
+    communications, getters) right after the restart and before the next value event.  The documented value at date t is the last point <= t
+    whatever the state in between."""
+    cpu = draw(st.sampled_from(["Lazy", "Lazy", "Full"]))
+    net = draw(st.sampled_from(["Lazy", "Full"]))
+    target = draw(st.sampled_from(["host", "host", "host", "link", "link"]))
+    manual = draw(st.integers(0, 2)) == 0
+    eighth = lambda lo, hi: st.integers(int(lo * 8), int(hi * 8)).map(lambda k: k / 8)
+    # off intervals
+    nint = draw(st.integers(1, 2))
+    ivs, t = [], 0.0
+    for _ in range(nint):
+        a = t + draw(eighth(0.5, 3.0))
+        b = a + draw(eighth(0.5, 3.0))
+        ivs.append((a, b))
+        t = b + draw(eighth(2.0, 5.0))
+    shift = 1 / 16 if manual else 0.0            # manual switches fall between the dates of everything else
+    # value events: some before the first interval, 1-2 inside every interval, the next one well after the restart (or none)
+
+    def value_profile(values, nominal):
+        pts, prev, t0 = [], nominal, 0.0
+        for (a, b) in ivs:
+            for _ in range(draw(st.integers(0, 1)) if pts else draw(st.integers(0, 3)) > 0):
+                d = draw(eighth(t0, a))
+                prev = _other(draw, values, prev, draw(st.integers(0, 3)) == 0)       # mostly a decrease: leaves room for an increase while off
+                pts.append([d, prev])
+            n_in = draw(st.integers(1, 2))
+            ds = sorted(draw(st.lists(st.integers(int(a * 8) + 1, int(b * 8) - 1), min_size=n_in, max_size=n_in)))
+            for k, d8 in enumerate(ds):
+                up = draw(st.integers(0, 3)) > 0 if k == len(ds) - 1 else draw(st.booleans())      # the last one mostly raises the value
+                prev = _other(draw, values, prev, up)
+                pts.append([d8 / 8, prev])
+            gap = draw(st.sampled_from([1.0, 2.0, 1.5, None]))
+            t0 = b
+            if gap is not None:
+                prev = _other(draw, values, prev, draw(st.booleans()))
+                pts.append([b + gap, prev])
+                t0 = b + gap
+        pts.sort(key=lambda x: x[0])
+        return {"points": pts, "period": -1}
+    h0 = {"name": "h0", "speed": 1024.0, "cores": 2}
+    l0 = {"name": "l0", "bw": 1024.0, "lat": draw(st.sampled_from([0.5, 0.25, 0.0])), "policy": "SHARED"}
+    state = {"points": [p for (a, b) in ivs for p in ([a, 0], [b, 1])], "period": -1}
+    man = {}
+    if target == "host":
+        h0["speed_profile"] = value_profile([0.25, 0.5, 1.0, 0.125, 0.75, 2.0], 1.0)
+        if manual:
+            man["host"] = [[a + shift, 0] if v == 0 else [a + shift, 1] for a, v in state["points"]]
+        else:
+            h0["state_profile"] = state
+    else:
+        which = draw(st.sampled_from(["bw", "bw", "lat", "both"]))
+        if which in ("bw", "both"):
+            l0["bw_profile"] = value_profile([512.0, 1024.0, 2048.0, 4096.0, 256.0], 1024.0)
+        if which in ("lat", "both"):
+            l0["lat_profile"] = value_profile([0.25, 0.5, 1.0, 0.125, 0.0], l0["lat"])
+        if manual:
+            man["link"] = [[a + shift, v] for a, v in state["points"]]
+        else:
+            l0["state_profile"] = state
+    plat = {"hosts": [h0, {"name": "h1", "speed": 1024.0, "cores": 2}, {"name": "h2", "speed": 1024.0, "cores": 2}],
+            "links": [l0, {"name": "l1", "bw": 1024.0, "lat": 0.5, "policy": "SHARED"}],
+            "routes": [{"src": "h1", "dst": "h2", "links": ["l0"], "sym": True}, {"src": "h0", "dst": "h1", "links": ["l1"], "sym": True}]}
+    small = st.sampled_from([128.0, 256.0, 512.0, 64.0])
+    delay = st.sampled_from([1 / 8, 1 / 4, 1 / 2, 0.0] if not manual else [1 / 8, 1 / 4, 1 / 2])
+    w, r, sp, gp = [], [], [], []
+    if target == "host":
+        # w0 restarts with the host (auto-restart) and probes at once; r0 probes from h1 shortly after every restart
+        for _ in range(draw(st.integers(1, 3))):
+            w.append(draw(st.sampled_from([["exec", draw(small), {}], ["speed_info", "h0"], ["sleep", draw(st.sampled_from([0.25, 0.5]))]])))
+        w += [["exec", draw(small), {}], ["speed_info", "h0"]]
+        if draw(st.booleans()):
+            r.append(["exec", draw(FLOPS), {"host": "h0"}])          # possibly in flight when the host goes off
+        for (a, b) in ivs:
+            r += [["sleep_until", b + shift + draw(delay)], ["speed_info", "h0"], ["exec", draw(small), {"host": "h0"}], ["speed_info", "h0"]]
+            if draw(st.booleans()):
+                r.append(["exec", draw(FLOPS), {"host": "h0"}])      # may span the next speed event
+        sp, gp = [["xput", 0, 512.0, {}]], [["xget", 0, {}]]
+    else:
+        w, r = [["exec", 512.0, {}], ["speed_info", "h0"]], [["sleep", 1.0]]
+        if draw(st.booleans()):
+            sp.append(["xput", 0, draw(SIZES), {}])                  # possibly in flight when the link goes off
+            gp.append(["xget", 0, {}])
+        for (a, b) in ivs:
+            sp += [["sleep_until", b + shift + draw(delay)], ["link_info", "l0"], ["xput", 0, draw(st.sampled_from([256.0, 512.0, 1024.0])), {}], ["link_info", "l0"]]
+            gp.append(["xget", 0, {}])
+            if draw(st.booleans()):
+                sp.append(["xput", 0, draw(SIZES), {}])
+                gp.append(["xget", 0, {}])
+        gp.append(["link_info", "l0"])
+    actors = [{"name": "w0", "host": "h0", "on_exit": 1, "ops": w, "auto_restart": target == "host"},
+              {"name": "r0", "host": "h1", "on_exit": 1, "ops": r},
+              {"name": "s1", "host": "h1", "on_exit": 1, "ops": sp}, {"name": "g2", "host": "h2", "on_exit": 1, "ops": gp}]
+    if man:
+        kind = "host" if "host" in man else "link"
+        cops = []
+        for d, v in man[kind]:
+            cops += [["sleep_until", d], ["turn_on" if v else "turn_off", kind, "h0" if kind == "host" else "l0"]]
+        actors.append({"name": "ctl", "host": "h2", "ops": cops})
+    cfg = ["network/model:CM02", "network/crosstraffic:0", "network/TCP-gamma:0", "cpu/optim:" + cpu, "network/optim:" + net]
+    return {"cfg": cfg, "platform": plat, "objects": {"mailbox": 1}, "actors": actors, "sample": {"bw": ["l0"], "speed": ["h0"]},
+            "dyadic": True, "manual": man}
+
+
+def all_scenarios(tier="quick"):
+    return st.one_of(scenarios(tier), scenarios(tier), scenarios(tier), restart_scenarios(), restart_scenarios())
+
+
 # ------------------------------------------------------------------------------------------------ oracle
 def close(a, b, tol=TOL):
     if a == b:
@@ -211,9 +328,12 @@ class Ref:
         until = until + 1.0
         self.speed_ev = events(h0["speed_profile"], until) if "speed_profile" in h0 else []
         self.hstate_ev = events(h0["state_profile"], until) if "state_profile" in h0 else []
+        man = case.get("manual") or {}
+        self.hstate_ev = sorted(self.hstate_ev + [(d, v) for d, v in man.get("host", [])], key=lambda x: x[0])   # switches by hand (turn_off / turn_on)
         self.bw_ev = events(l0["bw_profile"], until) if "bw_profile" in l0 else []
         self.lat_ev = events(l0["lat_profile"], until) if "lat_profile" in l0 else []
         self.lstate_ev = events(l0["state_profile"], until) if "state_profile" in l0 else []
+        self.lstate_ev = sorted(self.lstate_ev + [(d, v) for d, v in man.get("link", [])], key=lambda x: x[0])
         self.until = until
 
     @staticmethod
@@ -289,10 +409,10 @@ def check_c22(case, log, oc, labels):
         compare("speed of h0 (ratio)", fired("speed_change", "h0", "avail"), ref.speed_ev, "speed-events-differ")
     if "bw_profile" in l0:
         compare("bandwidth of l0", fired("bw_change", "l0", "bw"), ref.bw_ev, "bandwidth-events-differ")
-    if "state_profile" in h0:
+    if ref.hstate_ev:
         obs = [(T(l["t"]), l["on"]) for l in log.of("onoff") if l["res"] == "host" and l["name"] == "h0"]
         compare("state of h0", obs, Ref.switches(ref.hstate_ev), "host-state-events-differ")
-    if "state_profile" in l0:
+    if ref.lstate_ev:
         obs = [(T(l["t"]), l["on"]) for l in log.of("onoff") if l["res"] == "link" and l["name"] == "l0"]
         compare("state of l0", obs, Ref.switches(ref.lstate_ev), "link-state-events-differ")
 
@@ -316,10 +436,10 @@ def check_c22(case, log, oc, labels):
             break
         if "lat_profile" in l0 and not expect_value("sampled latency of l0", t, T(l["lat"]["l0"]), ref.lat_ev, ref.lat0, 1.0, "sampled-latency-differs"):
             break
-        if "state_profile" in h0 and "on" in l and l["on"]["h0"] not in Ref.on_states(ref.hstate_ev, t):
+        if ref.hstate_ev and "on" in l and l["on"]["h0"] not in Ref.on_states(ref.hstate_ev, t):
             oc.bad("sampled-host-state-differs", "h0 is %s at date %r, the profile says %s" % (l["on"]["h0"], t, Ref.is_on(ref.hstate_ev, t)))
             break
-        if "state_profile" in l0 and l["lon"]["l0"] not in Ref.on_states(ref.lstate_ev, t):
+        if ref.lstate_ev and l["lon"]["l0"] not in Ref.on_states(ref.lstate_ev, t):
             oc.bad("sampled-link-state-differs", "l0 is %s at date %r, the profile says %s" % (l["lon"]["l0"], t, Ref.is_on(ref.lstate_ev, t)))
             break
 
@@ -333,6 +453,29 @@ def check_c22(case, log, oc, labels):
 
     def speed_changes():
         return [(d, v * ref.peak) for d, v in ref.speed_ev]
+
+    def off_windows(state_ev, value_ev, nominal, what):
+        """[(restart date, next value event after it)] of the off intervals that contain a value event; labels what happened while off"""
+        sw = Ref.switches(state_ev)
+        res = []
+        for k, (d, on) in enumerate(sw):
+            if on or d > t_end:
+                continue
+            back = sw[k + 1][0] if k + 1 < len(sw) else math.inf
+            inside = [(x, v) for x, v in value_ev if d < x < back and x <= t_end]
+            if not inside:
+                continue
+            labels.add(what + "-event-while-off")
+            before = value_at(value_ev, nominal, d)
+            after = inside[-1][1]
+            labels.add(what + ("-increase" if after > before else "-decrease" if after < before else "-unchanged") + "-while-off")
+            if back < math.inf:
+                nxt = min([x for x, _ in value_ev if x > back] or [math.inf])
+                res.append((back, nxt))
+        return res
+    host_windows = off_windows(ref.hstate_ev, ref.speed_ev, 1.0, "speed")
+    bw_windows = off_windows(ref.lstate_ev, ref.bw_ev, ref.bw0, "bandwidth")
+    lat_windows = off_windows(ref.lstate_ev, ref.lat_ev, ref.lat0, "latency")
 
     # at date 0 the first slice of the actors runs before the events of date 0 are applied (first solve): what is requested at date 0 before the
     # first time step sees the nominal state and is hit by the events of date 0, what is requested after it sees their result
@@ -377,13 +520,17 @@ def check_c22(case, log, oc, labels):
                     r = nxt["r"]
                     if "speed_profile" in h0:
                         expect_value("Host::get_available_speed of h0 seen by %s" % an, t0, T(r["avail"]), ref.speed_ev, 1.0, 1.0, pre + "observed-speed-differs")
-                    if "state_profile" in h0 and r["on"] not in Ref.on_states(ref.hstate_ev, t0) and t0 > 0:
+                    if ref.hstate_ev and r["on"] not in Ref.on_states(ref.hstate_ev, t0) and t0 > 0:
                         oc.bad(pre + "observed-host-state-differs", "%s sees h0 %s at %r" % (an, "on" if r["on"] else "off", t0))
                 continue
             if op[0] == "sleep":
                 want = ("done", t0 + max(op[1], 0.0)) if t0 + op[1] < death or math.isinf(death) else (("tie", death) if close(t0 + op[1], death) else ("fail", death))
             elif op[0] == "exec":
                 want = exec_expect(t0, op[1], local, l["n"])
+                if any(b <= t0 < nxt for b, nxt in host_windows) and Ref.is_on(ref.hstate_ev, t0):
+                    labels.add("probe-after-restart-before-next-event")
+                    if want[0] == "done" and all(not (t0 < d < want[1]) for d, _ in ref.speed_ev):
+                        labels.add("probe-after-restart-before-next-event:closed-form")
                 inside = [d for d, _ in ref.speed_ev if t0 < d < want[1]]
                 if inside:
                     labels.add("speed-event-inside-exec")
@@ -442,6 +589,8 @@ def check_c22(case, log, oc, labels):
             want = ("fail", t0)
             L = 0.0
         else:
+            if any(b <= t0 < nxt for b, nxt in bw_windows + lat_windows):
+                labels.add("comm-after-restart-before-next-event")
             L = value_at(ref.lat_ev, ref.lat0, t0)
             amb0 = t0 == 0.0 and any(d == 0.0 for d, _ in ref.lat_ev)    # created before or after the event of date 0? not specified
             in_lat = [(d, v) for d, v in ref.lat_ev if t0 < d < t0 + L]
@@ -525,7 +674,7 @@ def check_c22(case, log, oc, labels):
                     expect_value("Link::get_bandwidth of l0 seen by %s" % an, t0, T(r["bw"]), ref.bw_ev, ref.bw0, 1.0, "observed-bandwidth-differs")
                 if "lat_profile" in l0:
                     expect_value("Link::get_latency of l0 seen by %s" % an, t0, T(r["lat"]), ref.lat_ev, ref.lat0, 1.0, "observed-latency-differs")
-                if "state_profile" in l0 and r["on"] not in Ref.on_states(ref.lstate_ev, t0) and t0 > 0:
+                if ref.lstate_ev and r["on"] not in Ref.on_states(ref.lstate_ev, t0) and t0 > 0:
                     oc.bad("observed-link-state-differs", "%s sees l0 %s at %r" % (an, "on" if r["on"] else "off", t0))
     # classification
     for name, prof in (("speed", h0.get("speed_profile")), ("hstate", h0.get("state_profile")), ("bw", l0.get("bw_profile")),
@@ -552,5 +701,7 @@ def check_c22(case, log, oc, labels):
     labels.add("cpu:" + [c for c in cfg if c.startswith("cpu/optim")][0].split(":")[1])
     if not case.get("dyadic", True):
         labels.add("non-dyadic-dates")
-    oc.nontrivial = bool({"speed-event-inside-exec", "bandwidth-event-inside-transfer", "period-wraps>=2", "host-off-during-exec",
+    if case.get("manual"):
+        labels.add("switched-by-hand")
+    oc.nontrivial = bool({"probe-after-restart-before-next-event", "comm-after-restart-before-next-event", "speed-event-inside-exec", "bandwidth-event-inside-transfer", "period-wraps>=2", "host-off-during-exec",
                           "host-off-during-exec:remote", "link-off-during-comm", "killed-by-state-profile"} & labels)
